@@ -31,7 +31,7 @@ Definition exact_dtype (dt : dtype) (len : N) (pre : bytes) : bool :=
   | DMac => false                                         (* 17 ASCII bytes come back *)
   | DDurSecs => len =? 4                                  (* whole seconds on 4 bytes *)
   | DDurMillis | DDurMicros | DDurNanos => false
-  | DProto => match pre with [b] => proto_to_u8 (bN b) =? bN b | _ => false end   (* 145 -> 255 *)
+  | DProto => match pre with [b] => proto_to_u8 (proto_decode (bN b)) =? bN b | _ => false end   (* 145..254 -> Unknown -> 255 *)
   end.
 
 (* ---- two's complement round trips at the widths that are kept ---- *)
@@ -127,7 +127,7 @@ Proof.
     destruct (take 1 i) as [[a r']|] eqn:Et; [|discriminate]. inversion E; subst. apply take_spec in Et.
     destruct Et as [-> HL]. destruct a as [|x [|? ?]]; try discriminate.
     assert (Hb : be [x] = bN x) by (unfold be; cbn; lia). rewrite Hb in H.
-    unfold proto_parse in H. destruct (memN (bN x) proto_variants); inversion H; subst.
+    inversion H; subst.
     exists [x]. split; [reflexivity|]. intro Ex. apply N.eqb_eq in Ex. cbn [fval_to_be]. rewrite Ex.
     cbn [enc app]. now rewrite byte_of_bN.
   - destruct puf; [|discriminate]. apply pmap_ok in H. destruct H as [a [H ->]]. apply take_c_ok in H.
